@@ -315,7 +315,10 @@ func (s *Synchronizer) advanceView(syncInfo hotstuff.SyncInfo) {
 		s.duration.ViewSucceeded()
 	}
 
-	newView := s.state.NextView()
+	// A certificate for a later view proves that a quorum has left every view up to it: go to the view
+	// after the certificate, not just one view on, or a replica that fell behind stays behind by the same
+	// number of views for ever.
+	newView := s.state.EnterViewAfter(view)
 
 	s.lastTimeout = nil
 	s.duration.ViewStarted()
